@@ -36,7 +36,7 @@ MANIFEST = {
              "E1 xi[t-1] + E2 + E3 u[t] + anticipated part), finite certificate => every equation holds in every period for every initial "
              "condition and every path of unanticipated and anticipated shocks (the infinitely many anticipated conditions follow from "
              "finitely many by induction), frames tile the base span and a split simulation equals the single-frame one, "
-             "level = steady + deviation by induction over periods, ||T^m||<1 => shock-free path bounded by c*||xi0|| for all t, "
+             "level = steady (path, also with growth) + deviation by induction over periods, ||T^m||<1 => shock-free path bounded by c*||xi0|| for all t, "
              "forward expansion R_k = -X J^(k-1) Ru equals the backward recursion of the unstable block. "
              "PARTIAL: the quantifier over model programs is covered by translation validation -- per generated model the certificate is "
              "evaluated in exact rational arithmetic on the implementation's own systemize()/get_solution() matrices (bound 1e-8*scale), "
@@ -91,6 +91,15 @@ def gen_spec(rng: Rng, size_hint=None) -> dict:
     ns = rng.weighted([(0, 1), (1, 6), (2, 6), (3, 4)])
     ns = min(ns, n + 1)
     unit_var = rng.randint(0, n - 1) if (rng.chance(0.15) and not has_log) else None
+    # balanced-growth mode: a unit-root variable WITH drift in a model that is not declared linear (so that the constants of the
+    # unsolved system come from the steady-state path, System.__init__ non-linear branch), other variables optionally written as
+    # gaps to the trending variable (they then grow too); log-variables allowed (growth rate != 1)
+    gr = rng.fork("growth")
+    growth = gr.chance(0.22)
+    if growth:
+        unit_var = gr.randint(0, n - 1)
+        logly = [gr.chance(0.3) for _ in range(n)]
+        has_log = any(logly)
     eqs = []
     for i in range(n):
         terms = []
@@ -115,7 +124,20 @@ def gen_spec(rng: Rng, size_hint=None) -> dict:
             for k in rng.sample(range(ns), rng.weighted([(0, 1), (1, 5), (2, 2)])):
                 shocks.append([k, nz(rng, -2, 2, 2)])
         const = dy(rng, -2, 2, 2) if (rng.chance(0.6) and i != unit_var) else 0.0
+        if growth and i == unit_var:
+            const = lhs * nz(gr, -1, 1, 3)          # drift
         eqs.append({"lhs": lhs, "terms": terms, "shocks": shocks, "const": const})
+    trend = [False] * n
+    if growth:
+        trend = [(j != unit_var and gr.chance(0.45)) for j in range(n)]
+        for i, eq in enumerate(eqs):
+            extra = []
+            for (j, sh, c, as_param) in eq["terms"]:
+                if trend[j]:
+                    extra.append([unit_var, sh, -c, False])      # c*x_j{sh}  ->  c*(x_j{sh} - x_u{sh})
+            if trend[i]:
+                extra.append([unit_var, 0, eq["lhs"], False])    # lhs*x_i = ...  ->  lhs*(x_i - x_u) = ...
+            eq["terms"] += extra
     nm = rng.weighted([(0, 3), (1, 4), (2, 3)])
     nw = rng.randint(0, nm) if nm else 0
     meas = []
@@ -134,7 +156,7 @@ def gen_spec(rng: Rng, size_hint=None) -> dict:
         me["terms"][0][1] = rng.choice([1, 1, 2])
         meas_lead = True
     return {"n": n, "logly": logly, "ns": ns, "eqs": eqs, "nm": nm, "mlogly": mlogly, "nw": nw, "meas": meas,
-            "linear": not has_log, "unit_var": unit_var, "meas_lead": meas_lead}
+            "linear": (not has_log) and not growth, "unit_var": unit_var, "meas_lead": meas_lead, "growth": growth, "trend": trend}
 
 
 def xname(j): return f"x{j}"
@@ -301,6 +323,54 @@ def own_steady(spec):
     return xs, ys
 
 
+def own_steady_path(spec, beta=0.0):
+    """balanced-growth steady path of the transformed variables from the harness's own equations:
+    x_j(tau) = l_j + g_j*tau  (tau = 0 in the first simulated period), y_r(tau) = ly_r + gy_r*tau.
+    Stationary models: g = 0.  One unit root: g spans the null space of the static matrix, its size is fixed by the
+    solvability of the level equations, the level along the null direction is free (`beta`).  None when not determined."""
+    n = spec["n"]
+    M = np.zeros((n, n)); c = np.zeros(n)
+    for i, eq in enumerate(spec["eqs"]):
+        M[i, i] += eq["lhs"]
+        for (j, sh, co, _) in eq["terms"]:
+            M[i, j] -= co
+        c[i] = eq["const"]
+
+    def shift_part(g):      # sum over terms of coef * g_j * shift
+        out = np.zeros(n)
+        for i, eq in enumerate(spec["eqs"]):
+            out[i] = sum(co * g[j] * sh for (j, sh, co, _) in eq["terms"])
+        return out
+    try:
+        U, sv, Vh = np.linalg.svd(M)
+    except Exception:
+        return None
+    if sv[-1] > 1e-9 * max(1.0, sv[0]):
+        if np.linalg.cond(M) > 1e8:
+            return None
+        g = np.zeros(n)
+        l = np.linalg.solve(M, c)
+    else:
+        if n >= 2 and sv[-2] <= 1e-9 * max(1.0, sv[0]):
+            return None
+        nv, w = Vh[-1], U[:, -1]
+        den = float(w @ shift_part(nv))
+        if abs(den) < 1e-6:
+            return None
+        alpha = -float(w @ c) / den
+        g = alpha * nv
+        rhs = c + shift_part(g)
+        l = np.linalg.lstsq(M, rhs, rcond=None)[0]
+        if np.max(np.abs(M @ l - rhs)) > 1e-9 * (1 + np.max(np.abs(rhs))):
+            return None
+        l = l + beta * nv / max(1e-12, np.max(np.abs(nv)))
+    ly = np.array([sum(co * (l[j] + g[j] * sh) for (j, sh, co) in me["terms"]) + me["const"] for me in spec["meas"]])
+    gy = np.array([sum(co * g[j] for (j, sh, co) in me["terms"]) for me in spec["meas"]])
+    if max([0.0] + [abs(x) for x in g] + [abs(x) for x in gy]) > 3 or max([0.0] + [abs(x) for x in l] + [abs(x) for x in ly]) > 60:
+        return None         # keeps exp() of log-variables and the tolerances well-conditioned
+    return l, g, ly, gy
+
+
 # ---------------------------------------------------------------------------------------
 # building and solving the real model
 # ---------------------------------------------------------------------------------------
@@ -318,18 +388,18 @@ def build_model(spec) -> Built:
         m.assign(**params)
     st = own_steady(spec)
     b.steady = st
+    b.steady_path = own_steady_path(spec, beta=spec.get("beta", 0.0))
     if not spec["linear"]:
-        # the steady state is assigned, not solved for (solve_steady is C05's subject); any point gives the same
-        # linearisation because the equations are linear in the transformed variables
-        if st is None:
-            xs, ys = np.zeros(spec["n"]), np.zeros(spec["nm"])
-        else:
-            xs, ys = st
+        # the steady state is assigned, not solved for (solve_steady is C05's subject); the equations are linear in the
+        # transformed variables, so any point of the steady path gives the same linearisation
+        if b.steady_path is None:
+            raise ValueError("spec without a determined steady path cannot be built as a non-linear model")
+        l, g, ly, gy = b.steady_path
         vals = {}
         for j in range(spec["n"]):
-            vals[xname(j)] = float(np.exp(xs[j])) if spec["logly"][j] else float(xs[j])
+            vals[xname(j)] = (float(np.exp(l[j])), float(np.exp(g[j]))) if spec["logly"][j] else (float(l[j]), float(g[j]))
         for r in range(spec["nm"]):
-            vals[yname(r)] = float(np.exp(ys[r])) if spec["mlogly"][r] else float(ys[r])
+            vals[yname(r)] = (float(np.exp(ly[r])), float(np.exp(gy[r]))) if spec["mlogly"][r] else (float(ly[r]), float(gy[r]))
         m.assign(**vals)
     m.solve()
     b.m = m
@@ -517,32 +587,54 @@ def oracle_equations(ctx: Ctx, b: Built, case, tag: dict, split=None, deviation=
     return ok
 
 
+def steady_path_arrays(b: Built, L, nper):
+    l, g, ly, gy = b.steady_path
+    tau = np.arange(-L, nper, dtype=float)
+    return l[:, None] + g[:, None] * tau[None, :], ly[:, None] + gy[:, None] * tau[None, L:]
+
+
 def oracle_level_steady_deviation(ctx: Ctx, b: Built, case, tag) -> bool:
-    """level simulation = steady state + deviation simulation of the same shocks (steady state from the harness's own equations)"""
+    """level simulation = steady path + deviation simulation of the same shocks, and the steady path reproduces itself
+    (steady path, possibly growing, from the harness's own equations)"""
     spec = b.spec
-    if b.steady is None:
+    if b.steady_path is None:
         return True
-    xs, ys = b.steady
     L, nper = case["maxlag"], case["nper"]
-    # deviation run: initial conditions are the case's init (interpreted as deviations); level run: steady + the same
+    XS, YS = steady_path_arrays(b, L, nper)
+    # deviation run: initial conditions are the case's init (interpreted as deviations); level run: steady path + the same
     lev_case = dict(case)
-    lev_case["init"] = [[xs[j] + d for d in case["init"][j]] for j in range(spec["n"])]
+    lev_case["init"] = [[XS[j, k] + case["init"][j][k] for k in range(L)] for j in range(spec["n"])]
+    st_case = dict(case)
+    st_case["init"] = [[XS[j, k] for k in range(L)] for j in range(spec["n"])]
+    st_case["u"] = [[0.0] * nper for _ in range(spec["ns"])]
+    st_case["v"] = [[0.0] * nper for _ in range(spec["ns"])]
+    st_case["w"] = [[0.0] * nper for _ in range(spec["nw"])]
     try:
         out_d, t0, span, _ = run_simulation(b, case, deviation=True)
         out_l, _, _, _ = run_simulation(b, lev_case, deviation=False)
+        out_s, _, _, _ = run_simulation(b, st_case, deviation=False)
     except Exception as e:
         ctx.fail("simulate-raises", tag, repr(e)[:300])
         return False
     Xd, Yd = transformed_path(b, out_d, t0, L, nper)
     Xl, Yl = transformed_path(b, out_l, t0, L, nper)
-    scale = 1.0 + float(np.max(np.abs(Xl))) + (float(np.max(np.abs(Yl))) if Yl.size else 0.0)
-    dx = np.max(np.abs(Xl - xs[:, None] - Xd)) if Xl.size else 0.0
-    dyv = np.max(np.abs(Yl - ys[:, None] - Yd)) if Yl.size else 0.0
+    Xs, Ys = transformed_path(b, out_s, t0, L, nper)
+    scale = 1.0 + float(np.max(np.abs(Xl))) + (float(np.max(np.abs(Yl))) if Yl.size else 0.0) + float(np.max(np.abs(XS)))
+    dx = np.max(np.abs(Xl - XS - Xd)) if Xl.size else 0.0
+    dyv = np.max(np.abs(Yl - YS - Yd)) if Yl.size else 0.0
+    sx = np.max(np.abs(Xs - XS)) if Xs.size else 0.0
+    sy = np.max(np.abs(Ys - YS)) if Ys.size else 0.0
     ctx.evaluations += 1
+    if np.any(b.steady_path[1] != 0):
+        ctx.count("level-oracle:growing-steady-path")
+    ok = True
+    if not (sx <= TOL_RES * scale and sy <= TOL_RES * scale):
+        ctx.fail("steady-path-not-reproduced", tag, f"shock-free level simulation from the steady path leaves it by {max(sx, sy):.3e} (scale {scale:.3g})")
+        ok = False
     if not (dx <= TOL_RES * scale and dyv <= TOL_RES * scale):
         ctx.fail("level-vs-steady-plus-deviation", tag, f"max|level - steady - deviation| = {max(dx, dyv):.3e} (scale {scale:.3g})")
-        return False
-    return True
+        ok = False
+    return ok
 
 
 def oracle_nonexplosive(ctx: Ctx, b: Built, case, tag) -> bool:
@@ -617,9 +709,14 @@ def gen_determinate(rng: Rng, ctx: Ctx | None = None, size_hint=None):
         unstable = [x for x in mod if x > 1 + 1e-3]
         if (stable and max(stable) > 0.92) or (unstable and min(unstable) < 1.08):
             continue
-        if not spec["linear"] and own_steady(spec) is None:
+        if spec.get("growth"):
+            spec["beta"] = dy(rng.fork(f"beta{attempt}"), -2, 2, 2)      # free level of the trending direction
+        sp = own_steady_path(spec, beta=spec.get("beta", 0.0))
+        if not spec["linear"] and sp is None:
             continue
-        if spec["linear"] and spec.get("unit_var") is None and own_steady(spec) is None:
+        if spec["linear"] and spec.get("unit_var") is None and sp is None:
+            continue
+        if spec.get("growth") and not np.any(np.abs(sp[1]) > 1e-3):
             continue
         return spec, verdict
     return None, None
@@ -847,7 +944,7 @@ def models_for_run(ctx: Ctx, n_models: int, tag="m"):
 def describe(spec) -> dict:
     lo, hi = spec_shift_ranges(spec)
     return {"n": spec["n"], "maxlag": -min(lo), "maxlead": max(hi), "log": any(spec["logly"]), "nm": spec["nm"],
-            "unit": spec.get("unit_var") is not None, "ns": spec["ns"]}
+            "unit": spec.get("unit_var") is not None, "ns": spec["ns"], "growth": bool(spec.get("growth"))}
 
 
 def check_model(ctx: Ctx, i, r: Rng, spec, verdict, lines: dict, n_cases: int):
@@ -866,7 +963,10 @@ def check_model(ctx: Ctx, i, r: Rng, spec, verdict, lines: dict, n_cases: int):
     ctx.count("log-variables" if d["log"] else "linear"); ctx.count(f"measurement={d['nm']}")
     if d["unit"]:
         ctx.count("unit-root-model")
-    ctx.nontriv(("model", d["n"], d["maxlag"], d["maxlead"], d["log"], d["nm"], d["unit"], d["ns"]))
+    if d["growth"]:
+        ctx.count("growth-model(not-linear,drift)")
+        ctx.count(f"growth-model:trending-variables={1 + sum(bool(x) for x in spec.get('trend', []))}")
+    ctx.nontriv(("model", d["n"], d["maxlag"], d["maxlead"], d["log"], d["nm"], d["unit"], d["ns"], d["growth"]))
     ctx.extra["programs"] = ctx.extra.get("programs", 0) + 1
     oracle_bk(ctx, b, verdict, tag)
     lines["vec"].append((tag, vec_line(b), vec_impl(b)))
@@ -892,7 +992,7 @@ def check_model(ctx: Ctx, i, r: Rng, spec, verdict, lines: dict, n_cases: int):
             Xb, Yb, _ = sim_impl_arrays(b, case, case["deviation"], False)
             sc = 1 + np.max(np.abs(Xb))
             if not (np.max(np.abs(Xa - Xb)) <= TOL_RES * sc and (Ya.size == 0 or np.max(np.abs(Ya - Yb)) <= TOL_RES * (sc + np.max(np.abs(Yb))))):
-                ctx.fail("split-vs-single-frame", ctag, f"max difference {np.max(np.abs(Xa - Xb)):.3e} over {nfa} frames")
+                ctx.fail("split-vs-single-frame", ctag, f"max difference x: {np.max(np.abs(Xa - Xb)):.3e}, y: {(np.max(np.abs(Ya - Yb)) if Ya.size else 0.0):.3e} over {nfa} frames")
             if nfa >= 2 and ok:
                 ctx.nontriv(("frames", min(nfa, 4), d["maxlead"] > 0, case["kind"]))
             ctx.count(f"frames={min(nfa, 5)}")
